@@ -236,7 +236,10 @@ func genPager(r *Rng, g *PageGen) pagerCase {
 		}
 		cls := ""
 		if r.Chance(30) {
-			cls = ` class="` + r.Pick("next", "prev", "nav-link", "pager-item", "button") + `"`
+			cls = ` class="` + r.Pick("next", "prev", "nav-link", "pager-item", "button", "first", "last", "page-next", "older-posts", "comment-nav", "Paging", "share", "new") + `"`
+			if r.Chance(25) {
+				cls += ` id="` + r.Pick("nextLink", "prev_page", "pagination-last", "footer-next", "p1", "continue") + `"`
+			}
 		}
 		return fmt.Sprintf(`<a href="%s"%s>%s</a>`, href, cls, labelText)
 	}
@@ -261,6 +264,15 @@ func genPager(r *Rng, g *PageGen) pagerCase {
 		open, close = `<div id="footer-nav" class="footer">`, `</div>`
 	default:
 		open, close = `<table><tr><td>`, `</td></tr></table>`
+	}
+	if r.Chance(20) {
+		// further ancestors with page-y, negative and negative-but-positive names
+		w := r.Pick(`<div class="sidebar"><div id="page-links">`, `<div class="footer main"><div>`, `<div id="comments"><div class="Pagination">`,
+			`<div class="widget"><div class="tool">`, `<section class="article-paging"><div class="meta">`)
+		open, close = w+open, close+`</div></div>`
+		if strings.HasPrefix(w, "<section") {
+			close = close[:len(close)-len(`</div></div>`)] + `</div></section>`
+		}
 	}
 	pager := open + before + sep + strings.Join(items, sep) + sep + after + close
 	var sb strings.Builder
